@@ -53,7 +53,7 @@ assert xxh32(b"") == 0x02CC5D05 and xxh32(b"abc") == 0x32D153FF
 assert xxh32(b"Nobody inspects the spammish repetition") == 0xE2293B2F
 
 
-def make_case(rng, keys=None, wrap=False, ntopics=None, recreated=False):
+def make_case(rng, keys=None, wrap=False, ntopics=None, recreated=False, flagged=False):
     nb = rng.randint(1, 3)
     topics = {}
     names = [b"t%d" % i for i in range(ntopics or rng.randint(1, 3))]
@@ -76,6 +76,15 @@ def make_case(rng, keys=None, wrap=False, ntopics=None, recreated=False):
                                                                      for i, l in enumerate(old if tt == t else ls)]}
                            for tt, ls in topics.items()]}
         boot = [boot[0], {"op": boot[1], "mutate": {"kind": "body", "api": "metadata", "body": body}}] + boot[2:] + [T("load_metadata", [[t]])]
+    if flagged:
+        # partition-level error codes next to a LIVE leader (a follower is down: ReplicaNotAvailable 9; others): the partition is
+        # available all the same - only the leader field says whether it is
+        body = {"brokers": [{"node_id": n, "host": h, "port": p} for n, (h, p) in sorted(spec["brokers"].items())],
+                "topics": [{"error": 0, "topic": tt, "partitions": [{"error": (rng.choice([9, 9, 3, 7]) if rng.random() < 0.4 else 0) if l >= 0 else 5,
+                                                                      "id": i, "leader": l, "replicas": [], "isr": []}
+                                                                     for i, l in enumerate(ls)]}
+                           for tt, ls in topics.items()]}
+        boot = [boot[0], {"op": boot[1], "mutate": {"kind": "body", "api": "metadata", "body": body}}] + boot[2:]
     ops = boot + [T("producer_build", [T("from_client"), [T("with_required_acks", [1])]])]
     serial = [0]
     meta_batches = []
@@ -116,6 +125,8 @@ def gen(rng, tier):
         cases.append(make_case(rng, wrap=True, ntopics=1))
     for _ in range(24 if tier == "quick" else 200):
         cases.append(make_case(rng, recreated=True))
+    for _ in range(24 if tier == "quick" else 200):
+        cases.append(make_case(rng, flagged=True))
     if tier == "thorough":
         allkeys = [bytes([a]) for a in range(256)] + [bytes([a, b]) for a in range(256) for b in range(256)]
         rng.shuffle(allkeys)
